@@ -1228,20 +1228,20 @@ def forced_response(
                                  "sampling time")
             sys_dt = sys.dt
 
-            # sp.signal.dlsim returns not enough samples if
-            # T[-1] - T[0] < sys_dt * decimation * (n_steps - 1)
-            # due to rounding errors.
-            # https://github.com/scipyscipy/blob/v1.6.1/scipy/signal/ltisys.py#L3462
-            n_samples = (n_steps - 1) * int(round(dt / sys_dt)) + 1
-            if int(np.floor(spT[-1] / sys_dt)) + 1 < n_samples:
-                # move the end time to the smallest value for which dlsim
-                # computes the required number of samples
-                spT[-1] = sys_dt * (n_samples - 1)
-                while int(np.floor(spT[-1] / sys_dt)) + 1 < n_samples:
-                    spT[-1] = np.nextafter(spT[-1], np.inf)
-
         else:
             sys_dt = dt         # For unspecified sampling time, use time incr
+
+        # sp.signal.dlsim returns not enough samples if
+        # T[-1] - T[0] < sys_dt * decimation * (n_steps - 1)
+        # due to rounding errors (also when sys_dt is the time increment).
+        # https://github.com/scipyscipy/blob/v1.6.1/scipy/signal/ltisys.py#L3462
+        n_samples = (n_steps - 1) * int(round(dt / sys_dt)) + 1
+        if int(np.floor(spT[-1] / sys_dt)) + 1 < n_samples:
+            # move the end time to the smallest value for which dlsim
+            # computes the required number of samples
+            spT[-1] = sys_dt * (n_samples - 1)
+            while int(np.floor(spT[-1] / sys_dt)) + 1 < n_samples:
+                spT[-1] = np.nextafter(spT[-1], np.inf)
 
         # Discrete time simulation using signal processing toolbox
         dsys = (A, B, C, D, sys_dt)
